@@ -352,6 +352,19 @@ func init() {
 				}
 				for _, mc := range marshalCfgs() {
 					c05Case(c, g, level, mc)
+					if mc.name != "default" {
+						c05ReuseCase(c, g, level, mc)
+					}
+				}
+			}
+			for _, g := range sharedPointerValues() {
+				if !c.Take() {
+					continue
+				}
+				for _, mc := range marshalCfgs() {
+					if mc.name == "recursion" { // cyclic values need recursion support
+						c05ReuseCase(c, g, level, mc)
+					}
 				}
 			}
 		},
@@ -395,7 +408,7 @@ func init() {
 		Guards:      map[string]int64{"evaluations": 5000},
 		Run: func(c *fx.Ctx) {
 			level := corpusLevel(c)
-			vals := append(gen.GoValues(level), gen.BigPointerValues()...)
+			vals := append(append(gen.GoValues(level), gen.BigPointerValues()...), gen.ExtremeBigValues()...)
 			for _, g := range vals {
 				if !c.Take() {
 					continue
